@@ -65,3 +65,53 @@ def run_predicates(c, prog, rule):
         ok = (rows.get("Null") == "1" and all(v == "0" for k, v in rows.items() if k != "Null") and len(rows) >= 2) or t in (
             "(discr(arg1) Eq 0)",)
         c.inst(rule, "confidential::%s::is_null = matches!(self, Null)" % ty, ok, "rows %s / returns %s" % (rows, t), f.where(), f.path)
+
+
+def split_table(prog, fnpath):
+    """{discriminant: (base variant name, anyone-can-pay flag)} of a split_anyonecanpay_flag function, evaluated on every
+    variant of its argument type whatever the shape of the match (one arm per variant, base match + matches!, ...)."""
+    from ..structured import listing
+    from ..mir import show
+    f = prog.fn(fnpath)
+    L, names = listing(f.body)
+    ty = f.j["inputs"][0] if f.j.get("inputs") else None
+    tinfo = prog.types.get(ty) or {}
+    out = {}
+
+    def val(t, vars_):
+        if t[0] == "var":
+            return vars_.get(t[1])
+        if t[0] == "const":
+            return t[2]
+        if t[0] == "agg":
+            return t[1].split("::")[-1]
+        return "?" + show(t, -6)
+
+    def walk(stmts, d, vars_):
+        for s in stmts:
+            if s[0] == "set" and s[1][0] == "var":
+                vars_[s[1][1]] = val(s[2], vars_)
+            elif s[0] == "if":
+                cs = show(s[1], -6)
+                if cs == "discr(arg1)":
+                    v = d
+                elif s[1][0] == "var":
+                    v = vars_.get(s[1][1])
+                else:
+                    return ("?", cs)
+                arm = "=%s" % v if "=%s" % v in s[2] else "otherwise"
+                if arm not in s[2]:
+                    return ("?", "no arm for %s" % v)
+                r = walk(s[2][arm], d, vars_)
+                if r is not None:
+                    return r
+            elif s[0] == "ret":
+                t = s[1]
+                if t[0] == "agg" and len(t[3]) == 2:
+                    return (val(t[3][0], vars_), val(t[3][1], vars_))
+                return ("?", show(t, -6))
+        return None
+
+    for v in tinfo.get("variants", []):
+        out[int(v["discr"])] = (v["name"], walk(L, int(v["discr"]), {}))
+    return f, out
